@@ -3,7 +3,8 @@ from harness import tcpgen as G
 
 RULE = ("packet signatures with windows built as k*d for each candidate divisor d (so every position of the divisor "
         "list is the first hit somewhere, with deliberate collisions), MSS around 100, both IP versions, header "
-        "lengths 40..120, peer MSS incl. <12; non-trivial = the model finds a multiplier (value != -1); distinct by input")
+        "lengths 40..120, peer MSS incl. <12; plus SYN / SYN+ACK wire packets whose signature is built by from_packet() with the peer MSS "
+        "passed as fingerprint_tcp passes it, and signatures that match the packet in everything but carry mss*N / mtu*N with N the packet's multiplier or one off (peer MSS equal to / 12 above the own MSS, windows k*peer, k*(peer-12)); non-trivial = the model finds a multiplier (value != -1); distinct by input")
 GEN_TIE = True     # the anchored decision functions are also TRANSLATED from /repo's source on every run and proved equal to the model
 ASSUMPTIONS = ["'timestamp present' is read as ts1 != 0 (p0f's and the code's rule)"]
 EXHAUSTIVE = {"mss 95..105 x win in {k*mss, k*(mss-12)} small grid": True}
@@ -38,9 +39,37 @@ def generate(R, tier):
             else:
                 q["win"] = R.choice([(p["mss"] - 12) * 4 % 65536 if p["mss"] > 12 else 0, (p["mss"] + p["hdr"]) * 2 % 65536, p["win"] // 2])
             yield {"stream": "sibling-" + k, "pkt": q}
+    # the last sentence of the property: which of mss*N / mtu*N signatures can match (everything else in the signature matches)
+    for _ in range(n // 8):
+        p = G.rand_pkt(R)
+        sg = G.matching_sig(R, p, 35)
+        wm = G.model_win_multi(p)
+        sg["wtype"] = R.choice([3, 4])
+        sg["wsize"] = max(1, min(1000, (wm[0] if wm else R.choice([1, 2, 4])) + R.choice([0, 0, 0, 1])))
+        G.legal_quirks(sg)
+        yield {"stream": "match-mss*N" if sg["wtype"] == 3 else "match-mtu*N", "pkt": p, "sig": sg, "md": 35}
+    # through the packet path: the signature is built by from_packet() from real bytes, the peer MSS is passed as fingerprint_tcp does
+    for _ in range(n // 8):
+        ty = R.choice([2, 0x12, 0x12, 0x12])
+        spec, p, ty = G.rand_wire_pkt(R, flags=ty)
+        if p["mss"] < 100 and R.random() < 0.7:
+            continue
+        syn_mss = min(65535, R.choice([0, p["mss"], p["mss"], p["mss"] + 12, 1380, 536, 1460, 1400, R.randrange(0, 65536)]))
+        p["syn_mss"] = syn_mss if ty == 0x12 else 0
+        if ty == 0x12 and syn_mss > 12 and R.random() < 0.6:
+            d = R.choice([syn_mss, syn_mss - 12])
+            k = R.choice([1, 2, 3, 4, 5, 10, 44])
+            p["win"] = spec["win"] = d * k if d * k <= 65535 else d
+        else:
+            p["win"] = spec["win"] = G.aim_window(R, p)
+        spec["mf"] = False
+        spec["frag"] = 0
+        yield {"stream": "wire-syn" if ty == 2 else "wire-synack", "pkt": p, "spec": spec, "syn_mss": syn_mss}
 
 
 def model_line(c):
+    if "sig" in c:
+        return "tcp_match %d %s %s" % (c["md"], G.enc_sig(c["sig"]), G.enc_pkt(c["pkt"]))
     return "win_multi " + G.enc_pkt(c["pkt"])
 
 
@@ -51,10 +80,23 @@ def impl_init():
 
     def impl(c):
         p = c["pkt"]
+        if "spec" in c:
+            from pyp0f.net.packet import parse_packet
+            from harness import implutil as U
+            ps = TCPPacketSignature.from_packet(parse_packet(U.scapy_from_spec(c["spec"])), c["syn_mss"])
+            wm = ps.window_multiplier
+            return [wm.value, bool(wm.is_mtu)]
         ps = TCPPacketSignature(ip_version=p["ver"], ip_options_length=p["olen"], ttl=p["ttl"], window_size=p["win"],
                                 options=TCPOptions(layout=list(p["layout"]), quirks=Quirk(0), mss=p["mss"], timestamp=p["ts1"],
                                                    window_scale=p["ws"], eol_padding_length=p["eol"]),
                                 headers_length=p["hdr"], has_payload=bool(p["pay"]), quirks=Quirk(p["quirks"]), syn_mss=p["syn_mss"])
+        if "sig" in c:
+            from pyp0f.database.signatures.tcp import TCPSignature
+            from pyp0f.fingerprint.tcp import tcp_signatures_match
+            from pyp0f.options import Options
+            r = tcp_signatures_match(TCPSignature.parse(G.sig_text(c["sig"])), ps, Options(max_dist=c["md"]))
+            wm = ps.window_multiplier
+            return [None if r is None else r.name, [wm.value, bool(wm.is_mtu)]]
         wm = ps.window_multiplier
         wm2 = ps.calculate_window_multiplier()
         if (wm.value, wm.is_mtu) != (wm2.value, wm2.is_mtu):
@@ -64,18 +106,25 @@ def impl_init():
 
 
 def outcome(c, ir, mr):
+    if "sig" in c:
+        return "sig:" + (str(mr[0]) if isinstance(mr, list) else "model-error")
     if isinstance(mr, list):
         return "none" if mr[0] == -1 else ("mtu" if mr[1] else "mss")
     return "model-error"
 
 
 def nontrivial(c, ir, mr):
+    if "sig" in c:
+        return isinstance(mr, list) and mr[0] is not None
     return isinstance(mr, list) and mr[0] != -1
 
 
 def judge(c, ir, mr):
     if ir == mr:
         return None
+    if "sig" in c:
+        return {"kind": "an mss*N / mtu*N signature matches although the window is not that multiple (or fails to match although it is)",
+                "why": "sig %r: impl %s, verified model %s" % (G.sig_text(c["sig"]), ir, mr), "judged_by": "C17_no_match / C01_match_iff"}
     return {"kind": "multiplier differs from the first-dividing-divisor rule", "why": "impl %s, verified model %s" % (ir, mr),
             "judged_by": "C17_first / C17_first_inv / C17_none (the model is proved to follow the documented order)"}
 
